@@ -202,6 +202,10 @@ def probe(sess, op):
             sub = sorted(p[len(gp.rstrip("/")) + 1:] for p in exp if p != gp and p.startswith(gp.rstrip("/") + "/"))
             got = dict(keys=sorted(g.keys()), iter=sorted(iter(g)), len=len(g), values=sorted(split(v.name)[-1] for v in g.values()),
                        items=sorted(k for k, _ in g.items()))
+            try:
+                got["reversed"] = sorted(reversed(g))
+            except (TypeError, AttributeError):
+                sess.classes.add("reversed_not_supported")  # refusing reverse iteration exposes nothing
             for api, val in got.items():
                 e = len(children) if api == "len" else children
                 if val != e:
@@ -216,6 +220,14 @@ def probe(sess, op):
             for c in children:
                 if c not in g or g.get(c) is None:
                     raise Violation("C08:member-not-found", f"{where}: {c!r} at {gp}", "in / get agree with listing")
+            for ap in exp:  # absolute addressing of every existing user node (and of the root) from every group
+                try:
+                    found = ap in g
+                except Exception as e:  # noqa: BLE001
+                    raise Violation("C08:membership-test-raises", f"{where}: {ap!r} in {gp}: {type(e).__name__}: {e}", True)
+                if not found:
+                    raise Violation("C08:member-not-found:absolute" + (":root" if ap == "/" else ""), f"{where}: {ap!r} in {gp} -> False",
+                                    "True (as on a plain tree)")
             for absent in ("zz", "a/zz", "zz/a") + tuple(c + "/zz" for c in children):
                 if (gp.rstrip("/") + "/" + absent) in exp:
                     continue
